@@ -67,6 +67,10 @@ def compare_frames(table, dfa, dfb, scale, exact=False, ptol=1e-8, ttol=1e-6, mr
                 # Re and lambda are reported from the last linearisation: they lag the final mass flow by one
                 # Newton step (<= tol_m in force, `mabs`), i.e. relative uncertainty mabs / |mdot|
                 tol = drel * np.maximum(np.abs(a), np.abs(b)) + 1e-12
+                # per-pipe values are means over sections formed by differences of a cumulative sum over the whole column:
+                # their absolute round-off is eps * (sum of the column), and a single stagnant pipe contributes
+                # lambda = 64 / Re ~ 1e9 to that sum
+                tol = tol + 2e-15 * float(np.nansum(np.abs(a)) + np.nansum(np.abs(b)))
                 if flowing is not None:
                     lag = (mabs + mfloor) / np.maximum(np.minimum(np.nan_to_num(ma), np.nan_to_num(mb)), 1e-300)
                     tol = tol + lag * np.maximum(np.abs(a), np.abs(b))
